@@ -199,7 +199,9 @@ def snippets_for(target: str, symbol_table: Any, module_name: str = "aasv_dummy"
     For the ``python`` target the dummies of implementation-specific *methods* and
     *verification functions* are real Python (``def ...: return <default of return type>``) so
     that the generated SDK imports; implementation-specific *classes* get a minimal class
-    without behaviour (their (de)serialization dummies raise ``NotImplementedError``).
+    without behaviour (their (de)serialization and verification dummies are real definitions of the names the
+    generated modules refer to -- ``<cls>_from_jsonable``, ``_read_<cls>_as_sequence`` / ``_as_element``,
+    ``transform_<cls>`` -- and raise ``NotImplementedError``).
     ``symbol_table`` may be None (rejected model): only the base files are returned.
     """
     assert target in TARGETS, target
@@ -268,8 +270,19 @@ def snippets_for(target: str, symbol_table: Any, module_name: str = "aasv_dummy"
                     f"def {python_naming.function_name(naming.Identifier(n + '_from_jsonable'))}(jsonable: Jsonable) -> aas_types.{pyn}:\n"
                     f"    raise NotImplementedError()"
                 )
-                out[f"Xmlization/read_{n}.py"] = "# dummy"
-                out[f"Verification/transform_{n}.py"] = "# dummy"
+                # what the generated xmlization.py refers to for every concrete class: the two readers
+                seq = python_naming.function_name(naming.Identifier(f"_read_{n}_as_sequence"))
+                elt = python_naming.function_name(naming.Identifier(f"_read_{n}_as_element"))
+                out[f"Xmlization/read_{n}.py"] = "\n\n\n".join(
+                    f"def {fn}(\n    element: Element,\n    iterator: Iterator[Tuple[str, Element]]\n) -> aas_types.{pyn}:\n"
+                    f"    raise NotImplementedError()"
+                    for fn in (seq, elt)
+                )
+                # a method of the generated ``_Transformer`` (the generator indents the snippet)
+                out[f"Verification/transform_{n}.py"] = (
+                    f"def {python_naming.method_name(naming.Identifier('transform_' + n))}(\n    self,\n    that: aas_types.{pyn}\n"
+                    f") -> Iterator[Error]:\n    raise NotImplementedError()"
+                )
             elif target == "csharp":
                 for k in (f"Types/{n}.cs", f"Copying/ShallowCopier/transform_{n}.cs", f"Copying/DeepCopier/transform_{n}.cs",
                           f"Enhancing/Wrap/{n}.cs", f"Enhancing/Enhanced/{n}.cs",
